@@ -229,7 +229,7 @@ def run(ctx):
     c = None
     while c is None:
       c = island.random_instance(rng, fedjax, leaves=2, dyadic=True, allow_momentum=False, max_clients=4, rounds=rng.choice([2, 3]))
-    bound = rng.choice([0.125, 0.5, 1.0, 2.0, 64.0])
+    bound = rng.choice([0.125, 0.5, 1.0, 2.0, 64.0]) if i % 4 else 0.0      # 0 is a legal bound: nothing may be aggregated
     slr = rng.choice([1.0, 0.5])
     rec = algs.run_rounds(fedjax, 'mime_lite', c, clip=bound, server_lr=slr)
     about = f'mime_lite#{i} bound={bound}'
@@ -241,6 +241,9 @@ def run(ctx):
       step = np.linalg.norm(np.array(prev) - np.array(p)) / slr
       ev.append({'e': 'Fact', 'name': 'AggregateWithinBound', 'about': f'{about} round {r + 1} step {step}', 'holds': bool(step <= bound * (1 + 1e-5) + 1e-7)})
       for cid, d in diag.items():
+        if 'clipped_delta_l2_norm' not in d:
+          ev.append({'e': 'Fact', 'name': 'ClippedNormReported', 'about': f'{about} round {r + 1} client {cid!r}', 'holds': False})
+          continue
         cn, n0 = float(d['clipped_delta_l2_norm']), float(d['delta_l2_norm'])
         ev.append({'e': 'Fact', 'name': 'ClippedNormWithinBound', 'about': f'{about} round {r + 1} client {cid!r} norm {cn}', 'holds': bool(cn <= bound * (1 + 1e-5))})
         ev.append({'e': 'Fact', 'name': 'ClipIsIdentityBelowBound', 'about': f'{about} round {r + 1} client {cid!r} {n0}->{cn}',
